@@ -147,6 +147,9 @@ Proof.
   - intros t0 l f Hin. rewrite Hl. destruct (Nat.eq_dec t0 t) as [->|Hne].
     + apply (Hk _ _ Hin).
     + rewrite Hfr in Hin by auto. apply (iF4 I _ _ _ Hin).
+  - intros t0 l Hl0. rewrite El in Hl0. destruct (Nat.eq_dec t0 t) as [->|Hne].
+    + rewrite Hth. apply (iA6 I); auto.
+    + rewrite Hto by auto. apply (iA6 I); auto.
 Qed.
 
 Lemma pend_benign s s' frs : benign s s' -> pend s frs -> pend s' frs.
@@ -757,6 +760,7 @@ Proof.
   - intros t l f had. rewrite Hfr. intros [].
   - intros t t' l l' f had had'. rewrite Hfr. intros [].
   - intros t l f. rewrite Hfr. intros [].
+  - intros t l _. rewrite Ht. simpl. lia.
 Qed.
 
 (* ---------------------------------------------------------------- main theorem *)
